@@ -622,6 +622,21 @@ def _edge_specs(game):
     if sv:
         out.append(("edge_negative_and_far", std_spec(game, hits=[(-500, 0), (0, 1), (250, 2), (1234567.891, 3)], holds=[(-250, 3, 500), (1234000, 0, 567.5)], bpms=[(-1000, 120), (1000, 240), (600000, 90)],
                                                       svs=[(-750, 0.5), (500, 2.0), (1234500, 0.25)])))
+    if game in ("osu", "qua", "o2j"):
+        # dimension 19: NEAR-TIES THAT COLLIDE WHEN WRITTEN (games whose files / conversion targets hold times in ms, no beat grid): two tempo
+        # points, two SVs, two notes of one column, two hold heads, two samples whose float times DIFFER (x.2 / x.7, x.4 / x.6 in both row
+        # orders, x.2 / x.9) but fall on the same whole millisecond when truncated or rounded, with different values.  The chart itself has no
+        # tie (every time is distinct), so conversions, rate, full_ln, dominant bpm, scroll speed, SV normalisation are compared as for every
+        # chart.  A WRITTEN file that stores whole ms holds two records at one time there; which of them "comes first" is not something the
+        # statement fixes, so for the writers only what is compared anyway is asserted: the MULTISET of written records (text) and the
+        # multiset of objects the reader returns - a record that is dropped or merged depending on the row order changes that multiset.
+        nt = dict(hits=[(0, 0), (500.2, 1), (500.7, 1), (1625.4, 2), (1625.6, 3), (3000, 0)], holds=[(2000.2, 3, 750.5), (2000.9, 2, 125.3), (4000, 2, 500)],
+                  bpms=[(0, 120), (1000.2, 60), (1000.7, 240), (1500, 120), (4000.6, 90), (4000.4, 180)])
+        if sv:
+            nt["svs"] = [(100, 1.5), (2100.2, 0.5), (2100.7, 2.0), (2101.2, 0.75)]
+        if game == "osu":
+            nt["samples"] = [(300.2, "a.wav", 40), (300.7, "b.wav", 50)]
+        out.append(("edge_near_ties_written", std_spec(game, **nt)))
     if game in ("sm", "o2j"):
         inner = std_spec(game, **small)
         inner["set_before"] = [std_spec(game, hits=[(0, 0), (500, 1)], holds=[], bpms=[(0, 120), (4000, 240), (6000, 180)])]  # a chart without holds
@@ -831,6 +846,7 @@ def _c15_game(rep, game):
     rep.bound = (f"{game}: {len(_specs(game))} fixed charts + {n_edge} edge charts + {rep.n(3, 16)} random small and {rep.n(1, 8)} random larger charts (tempo witness, small with all lists,{' two holds in one column,' if game == 'bms' else ''} gappy / filtered labels, empty lists, a larger one"
                  f"{', notes with and without hitsounds of their own' if game == 'osu' else ''}; edge: no hits at all; times shared across lists (notes, hold heads and tails, SVs on tempo changes and at time 0{'' if game in ('bms', 'sm') else ', a hold of length 0'}); "
                  f"sub-ms and x.5 times with non-integer tempos; int-typed time columns; the chart as an earlier rate(1) / a stack edit leaves it (re-typed columns); which kind of object is first / last (tempo point after the last note, SV / sample / mine / stop before the first note and after the last{', SV + sample + note BEFORE the first tempo point' if game in ('osu', 'qua') else ''}); non-default row labels on every list{'; negative and far (20 min) times' if game in ('osu', 'qua') else ''}"
+                 f"{'; NEAR-TIES THAT COLLIDE WHEN WRITTEN: two tempo points / SVs / notes of one column / hold heads / samples whose float times differ (x.2 / x.7, x.4 / x.6, x.2 / x.9) but fall on one whole ms, with different values - the chart has no tie; for the writers the multiset of written records / re-read objects is compared' if game in ('osu', 'qua', 'o2j') else ''}"
                  f"{'; two notes at one time with different volumes of their own where hitsound_copy has one sound to place (clause hitsound_copy_volume_of_tied_target_notes)' if game == 'osu' else ''}"
                  f"{'; the chart in the middle of a 3-chart set between a chart without holds and a chart without hits' if game in ('sm', 'o2j') else ''}; random charts: 35% with non-default labels on a random subset of all lists, 25% int-typed); "
                  f"per chart: reverse sort; for charts with <= 4 rows per list ALL permutations of each list on its own{' (fixed charts)' if quick else ''} "
